@@ -321,3 +321,121 @@ theorem rshCoef_fused_cong {b : Nat} {H : Int} (hr : HeadRoom 64 b 0 H) (hb62 : 
   exact ⟨hlen, t, ht⟩
 
 end NormL
+
+namespace NormL
+
+/-- the four limb ranges of the same-radix routine tile the result -/
+theorem interRanges_facts (lo : Int) (rs as : Nat) :
+    (interRanges lo rs as).1 ≤ (interRanges lo rs as).2.1 ∧ (interRanges lo rs as).2.1 ≤ rs ∧
+    (interRanges lo rs as).2.2.1 ≤ (interRanges lo rs as).2.2.2 ∧ (interRanges lo rs as).2.2.2 ≤ as ∧
+    (interRanges lo rs as).2.1 - (interRanges lo rs as).1 = (interRanges lo rs as).2.2.2 - (interRanges lo rs as).2.2.1 := by
+  unfold interRanges clampNat
+  simp only
+  omega
+
+/-- on zero limbs the carry propagation does not depend on the intra-limb shift -/
+theorem finalTopRun_zeros_lsh {bits b lsh : Nat} {H : Int} (hr : HeadRoom bits b lsh H) :
+    ∀ (n : Nat) (c : Int), |c| ≤ H + 3 →
+      finalTopRun bits b lsh (List.replicate n 0) c = finalTopRun bits b 0 (List.replicate n 0) c := by
+  have hb : 1 ≤ b := by have := hr.hlsh; omega
+  have hr0 : HeadRoom bits b 0 H := hr.with_lsh (by omega)
+  have h0 : |(0 : Int)| ≤ H := by simpa using hr.hH0
+  have hm : 1 ≤ b - lsh := by have := hr.hlsh; omega
+  -- one step
+  have hstep : ∀ c : Int, |c| ≤ H + 3 → middleStepS bits b lsh 0 c = middleStepS bits b 0 0 c := by
+    intro c hc
+    rw [(middleStepS_eq hr h0 hc).1, (middleStepS_eq hr0 h0 hc).1]
+    simp only [bmod_zero (b - lsh) hm, bcarry_zero (b - lsh) hm, Nat.sub_zero, bmod_zero b hb, bcarry_zero b hb,
+      zero_mul]
+  have hmid : ∀ (n : Nat) (c : Int), |c| ≤ H + 3 →
+      middleRun bits b lsh (List.replicate n 0) c = middleRun bits b 0 (List.replicate n 0) c := by
+    intro n
+    induction n with
+    | zero => intro c _; rfl
+    | succ n ih =>
+      intro c hc
+      simp only [List.replicate_succ, middleRun]
+      rw [ih c hc]
+      have hcb : |(middleRun bits b 0 (List.replicate n 0) c).2| ≤ H + 3 := by
+        have hz : ∀ x ∈ List.replicate n (0 : Int), |x| ≤ H := by
+          intro x hx; rw [(List.mem_replicate.mp hx).2]; exact h0
+        exact (middleRun_spec hr0 _ hz c hc).2.2.2
+      rw [hstep _ hcb]
+  intro n c hc
+  rw [finalTopRun_eq_middleRun, finalTopRun_eq_middleRun, hmid n c hc]
+
+theorem zipWith_map_right' {α : Type} (f : α → Int → Int) (g : Int → Int) (l : List α) (m : List Int) :
+    List.zipWith (fun r d => f r (g d)) l m = List.zipWith f l (m.map g) := by
+  rw [List.zipWith_map_right]
+
+/-- **the NTT120 same-radix fused kernels are the fall-back form**: within head-room,
+`ntt120_vec_znx_big_normalize_inter_assign::<O>` returns `res[j] ± tmp[j]` limb for limb, where `tmp` is
+what `ntt120_vec_znx_big_normalize` writes into a temporary of `res`'s size. -/
+theorem normalizeInterAssignCoef128_eq {b : Nat} {H : Int} (hr : HeadRoom 128 b 0 H) (op : AccOp) (off : Int)
+    (a res : List Int) (ha : ∀ x ∈ a, |x| ≤ H) (hres : ∀ r ∈ res, |r| < 2 ^ 63) :
+    normalizeInterAssignCoef128 op b off a res
+      = List.zipWith (fun r x => op.apply r x) res ((normalizeInterCoef 128 b res.length off a).map w64) := by
+  have hb : 1 ≤ b := by have := hr.hlsh; omega
+  obtain ⟨_, hl⟩ := splitOffset_spec hb off
+  have hrl := hr.with_lsh hl
+  have h0 : |(0 : Int)| ≤ H + 3 := by have := hr.hH0; simp; linarith
+  have hop0 : ∀ r, |r| < 2 ^ 63 → op.apply r (w64 0) = r := by
+    intro r hr'
+    have hw0 : w64 0 = 0 := by decide
+    cases op with
+    | add => simp only [AccOp.apply, hw0, add_zero]; exact w64_eq_of_abs_lt hr'
+    | sub => simp only [AccOp.apply, hw0, sub_zero]; exact w64_eq_of_abs_lt hr'
+  unfold normalizeInterAssignCoef128 normalizeInterCoef
+  simp only
+  obtain ⟨f1, f2, f3, f4, f5⟩ := interRanges_facts (splitOffset b off).2 res.length a.length
+  generalize (splitOffset b off).1 = lsh at hrl ⊢
+  generalize hrg : interRanges (splitOffset b off).2 res.length a.length = rg at f1 f2 f3 f4 f5 ⊢
+  obtain ⟨resEnd, resStart, aEnd, aStart⟩ := rg
+  simp only at f1 f2 f3 f4 f5 ⊢
+  set D := a.drop aStart with hD
+  set M' := (a.take aStart).drop aEnd with hM'
+  have hDb : ∀ x ∈ D, |x| ≤ H := fun x hx => ha x (List.mem_of_mem_drop hx)
+  have hMb : ∀ x ∈ M', |x| ≤ H := fun x hx => ha x (List.mem_of_mem_take (List.mem_of_mem_drop hx))
+  set c0 := (carryOnlyRun 128 b lsh D).getD 0 with hc0
+  have hc0b : |c0| ≤ H + 3 := by
+    rw [hc0, carryOnlyRun_getD hrl D hDb]; exact (middleRun_spec hrl D hDb 0 h0).2.2.2
+  set c1 := gapRun 128 b lsh (min (Int.toNat (-(splitOffset b off).2 - ↑res.length)) (gapCap 128 b)) c0 with hc1
+  have hc1b : |c1| ≤ H + 3 := (gapRun_spec hrl hc0b _).1
+  obtain ⟨_, mlen, _, mcb⟩ := middleRun_spec hrl M' hMb c1 hc1b
+  set mid := middleRun 128 b lsh M' c1 with hmid
+  have hM'l : M'.length = aStart - aEnd := by simp [hM']; omega
+  have hml : mid.1.length = resStart - resEnd := by rw [mlen, hM'l]; omega
+  have hmidLo : resStart - mid.1.length = resEnd := by rw [hml]; omega
+  rw [hmidLo, ← finalTopRun_zeros_lsh hrl resEnd mid.2 mcb]
+  have hemp : (res.take resEnd).drop resEnd = [] := by
+    apply List.drop_eq_nil_of_le; simp
+  rw [hemp, List.append_nil]
+  set top := finalTopRun 128 b lsh (List.replicate resEnd 0) mid.2 with htop
+  have htl : top.length = resEnd := by
+    rw [htop, finalTopRun_eq_middleRun, middleRun_length]; simp
+  -- split `res`
+  have hsplit := take_split3 res resEnd resStart f1
+  conv_rhs => rw [hsplit]
+  rw [List.map_append, List.map_append, List.map_replicate]
+  have hl1 : (res.take resEnd).length = (top.map w64).length := by simp [htl]; omega
+  have hl2 : ((res.take resStart).drop resEnd).length = (mid.1.map w64).length := by simp [hml]; omega
+  rw [List.zipWith_append (by simp [hl1, hl2]), List.zipWith_append hl1]
+  have hgen : ∀ (l : List Int), (∀ r ∈ l, |r| < 2 ^ 63) → ∀ n, n = l.length →
+      List.zipWith (fun r x => op.apply r x) l (List.replicate n (w64 0)) = l := by
+    intro l hl n hn
+    subst hn
+    induction l with
+    | nil => simp
+    | cons x l ih =>
+      simp only [List.length_cons, List.replicate_succ, List.zipWith_cons_cons]
+      rw [hop0 x (hl x (by simp)), ih (fun r hr' => hl r (by simp [hr']))]
+  congr 1
+  · congr 1
+    · exact zipWith_map_right' (fun r x => op.apply r x) w64 _ _
+    · exact zipWith_map_right' (fun r x => op.apply r x) w64 _ _
+  · symm
+    apply hgen _ (fun r hr' => hres r (List.mem_of_mem_drop hr'))
+    simp only [List.length_append, List.length_take, List.length_drop]
+    omega
+
+end NormL
